@@ -305,6 +305,11 @@ func (s *Server) acceptAndRegister(ctx context.Context, l *uacp.Listener) {
 			if err != nil {
 				switch x := err.(type) {
 				case *net.OpError:
+					if x.Op != "accept" {
+						// the handshake with this client failed, e.g. it reset the
+						// connection. Keep accepting other clients.
+						continue
+					}
 					// socket closed. Cannot recover from this.
 					if s.cfg.logger != nil {
 						s.cfg.logger.Error("socket closed: %s", err)
